@@ -11,6 +11,7 @@ import Deb822Verif.Driver.Derive
 import Deb822Verif.Driver.Typed
 import Deb822Verif.Driver.TypedDoc
 import Deb822Verif.Driver.RelLossyBuild
+import Deb822Verif.Driver.Changes
 open Deb822Verif
 
 def dispatch (op : String) (args : List String) : String :=
@@ -26,6 +27,7 @@ def dispatch (op : String) (args : List String) : String :=
     <|> (Driver.Typed.handle op args)
     <|> (Driver.TypedDoc.handle op args)
     <|> (Driver.RelLossyBuild.handle op args)
+    <|> (Driver.Changes.handle op args)
   match r with
   | some s => s
   | none => "bad-op"
